@@ -211,9 +211,57 @@ def must_have(problem):
     return feats
 
 
+class MAView:
+    """the attributes must_have() reads, for a MultiAgentProblem (actions and fluents of every agent and of the
+    environment; no timed items / trajectory constraints / metrics there)"""
+
+    def __init__(self, p):
+        self.actions = [a for ag in p.agents for a in ag.actions]
+        self.fluents = list(p.ma_environment.fluents) + [f for ag in p.agents for f in ag.fluents]
+        self.all_objects = p.all_objects
+        self.goals = p.goals
+        self.timed_effects, self.timed_goals = {}, {}
+        self.trajectory_constraints, self.quality_metrics = [], []
+
+    def __getattr__(self, name):  # anything else (initial-state probing): not modelled for MA
+        raise AttributeError(name)
+
+
+def build_ma(spec):
+    """the generated single-agent spec as a MultiAgentProblem: its fluents become environment fluents, its
+    actions are split over two agents, each agent also owns a private Boolean fluent that its actions write"""
+    from unified_planning.model.multi_agent import Agent, MultiAgentProblem
+
+    b = build(dict(spec, actions=[], goals=[], traj=[], metric=None))
+    mp = MultiAgentProblem("ma", b.env)
+    for o in b.problem.all_objects:
+        mp.add_object(o)
+    for f in b.problem.fluents:
+        d = b.problem.fluents_defaults.get(f)
+        if d is not None:
+            mp.ma_environment.add_fluent(f, default_initial_value=d)
+        else:
+            mp.ma_environment.add_fluent(f)
+    agents = [Agent("ag0", mp), Agent("ag1", mp)]
+    for ag in agents:
+        ag.add_fluent("mine", b.tm.BoolType(), default_initial_value=False)
+    for i, a in enumerate(spec["actions"]):
+        if "dur" in a:
+            continue
+        act = b.make_action(a)
+        agents[i % 2].add_action(act)
+    for ag in agents:
+        mp.add_agent(ag)
+    for g in spec["goals"]:
+        mp.add_goal(b.expr(g))
+    return mp
+
+
 @st.composite
 def cases(draw):
-    k = draw(st.integers(0, 2))
+    k = draw(st.integers(0, 3))
+    if k == 3:
+        return {"ma": True, "problem": gen.Gen(draw, gen.Profile(ifuns=False, traj=False, invariants=False, undefined=False, int_params=True, max_eff=3)).problem()}
     if k == 0:
         from checks.c03 import cases as c03cases
 
@@ -226,10 +274,17 @@ def cases(draw):
 
 
 def check(ctx, case, problem=None):
-    if problem is None:
-        b = build(case["problem"])
-        problem = b.problem
-    need = must_have(problem)
+    if problem is None and case.get("ma"):
+        problem = build_ma(case["problem"])
+        need = must_have(MAView(problem))
+        # class-specific names of the same notions
+        need = {f: w for f, w in need.items() if not f.startswith("UNDEFINED_INITIAL") and f != "ACTION_BASED"}
+        need["ACTION_BASED_MULTI_AGENT"] = "problem class"
+    else:
+        if problem is None:
+            b = build(case["problem"])
+            problem = b.problem
+        need = must_have(problem)
     try:
         kind = problem.kind
     except Exception as e:
